@@ -29,7 +29,8 @@ MkChain(par) ==
       runs |-> <<RunR("main", VM3(a, b, c), "D")>>,
       tag |-> "chain|" \o a \o b \o c \o "|" \o (IF he THEN "else" ELSE "noelse") \o (IF lets THEN "|let" ELSE "")]
 
-RKinds == {"slice", "islice", "array", "ptrslice", "map", "chan", "ints", "customidx", "custom", "nil", "bad"}
+\* customslice / customchan: custom Rangers declared on a slice type (index-less) and on a chan type (with index)
+RKinds == {"slice", "islice", "array", "ptrslice", "map", "chan", "ints", "customidx", "custom", "customslice", "customchan", "nil", "bad"}
 ElemsOf(kind, n) == IF kind = "map1" THEN <<"m1">> ELSE IF kind = "ints" THEN [i \in 1..n |-> ToString(i - 1)] ELSE [i \in 1..n |-> "e" \o ToString(i)]
 
 MkRange(par) ==
